@@ -438,6 +438,21 @@ class Run:
         try:
             if k == 'sleep':
                 time.sleep(op[1] / 1000.0)
+            elif k == 'locked':
+                # a block of operations during which the clock thread cannot run (it needs the main lock):
+                # the order of the schedulings inside is then the only thing that decides ties
+                with main._main_lock:
+                    for o in op[1]:
+                        self.do_op(o, who)
+            elif k in ('rplay', 'rresume'):
+                t0 = real_now()
+                if k == 'rplay':
+                    self.tasks[op[1]].play(c, op[2])
+                else:
+                    self.tasks[op[1]].resume(c, op[2])
+                self.scheds.append([who, op[1], 'play', op[2], t0, real_now()])
+            elif k == 'rpause':
+                self.tasks[op[1]].pause()
             elif k == 'busy':
                 t_end = time.time() + op[1] / 1000.0       # a body that runs late (holds the lock)
                 while time.time() < t_end:
